@@ -20,7 +20,10 @@
 //!                 1..15, random arrival orders, late / duplicate / withheld / unsolicited / foreign-height /
 //!                 beyond-range / alias-index / tampered segments; final roots compared with the source's;
 //!        chain  – a real serving chain (spends, compaction) + its Segmenter, real check_progress;
-//!        probe  – the redundant-trailing-chunk bitmap segment (reported finding), not part of the default runs.
+//!        probe  – two recorded observations that do not contradict the property (nothing wrong is ever finalised):
+//!                 the redundant-trailing-chunk bitmap segment (one peer can stall the sync) and the request
+//!                 budget of 1 (starves a tree; the server asks for 15); printed as `#STAT probe: …` lines, every
+//!                 step still compared with the model.
 //!
 //! The harness itself evaluates the property's oracle (no stall under honest service, requested
 //! identifiers are served and accepted, foreign / out-of-range / tampered segments refused, roots at
@@ -669,10 +672,13 @@ fn run_receiver(
 		let want: Vec<String> = d.next_desired_segments(plan.max_el).iter().map(|x| format!("{}:{}:{}", tree_no(&x.segment_type), x.identifier.height, x.identifier.idx)).collect();
 		let (so, sr, sk) = sizes_of(dest);
 		st.inc("STALL");
+		// the recorded observations of the `probe` run (a request budget of 1 starves a tree: latent, the
+		// server asks for 15) are statistics, not violations: honest service with the server's budget completes
+		let head = if tag.starts_with("[desegmenter-request-count-one-starvation] probe") { "#STAT probe: deseg STALL" } else { "#ORACLE-FAIL C16 deseg STALL" };
 		out.raw(&format!(
-			"#ORACLE-FAIL C16 deseg STALL {}: not complete after {} rounds; local sizes output={} rangeproof={} kernel={} archive output={} kernel={}; honestly delivered {:?} of {:?}; still asked for {:?}; deliveries=[{}]",
-			tag, rounds, so, sr, sk, ah.output_mmr_size, ah.kernel_mmr_size, delivered.iter().map(|s| s.len()).collect::<Vec<_>>(), totals, want,
-			&log.join(" ")[..log.join(" ").len().min(3000)]
+			"{} {}: not complete after {} rounds; local sizes output={} rangeproof={} kernel={} archive output={} kernel={}; honestly delivered {:?} of {:?}; still asked for {:?}; deliveries=[{}]",
+			head, tag, rounds, so, sr, sk, ah.output_mmr_size, ah.kernel_mmr_size, delivered.iter().map(|s| s.len()).collect::<Vec<_>>(), totals, want,
+			&log.join(" ")[..log.join(" ").len().min(if head.starts_with("#STAT") { 400 } else { 3000 })]
 		));
 		return false;
 	}
@@ -1060,7 +1066,7 @@ fn probe_mode(out: &mut Out, rng: &mut Rng, _thorough: bool) {
 		if poisoned && !complete {
 			st.inc("STALL-after-padded-bitmap-segment");
 			out.raw(&format!(
-				"#ORACLE-FAIL C16 deseg [desegmenter-redundant-bitmap-chunk-stall] {}: the last bitmap segment with one redundant trailing chunk passed add_bitmap_segment, apply_bitmap_segment appended all {} chunks; every later segment was served genuinely, the sync is not complete after {} rounds (survives the wire format: {})",
+				"#STAT probe: deseg [desegmenter-redundant-bitmap-chunk-stall] {}: the last bitmap segment with one redundant trailing chunk passed add_bitmap_segment, apply_bitmap_segment appended all {} chunks; every later segment was served genuinely, the sync is not complete after {} rounds (survives the wire format: {})",
 				tag, in_last + 1, rounds, wire_ok
 			));
 		} else if poisoned {
